@@ -40,5 +40,12 @@ EnvSeqDef == <<
     [c |-> [C1 |-> TRUE,  C2 |-> FALSE], l |-> [L1 |-> 2], s |-> "a"],
     [c |-> [C1 |-> FALSE, C2 |-> TRUE],  l |-> [L1 |-> 1], s |-> "b"],
     [c |-> [C1 |-> FALSE, C2 |-> FALSE], l |-> [L1 |-> 0], s |-> "z"] >>
+\* three conditions: EnvSeqDef extended by C3 (the harness renders every program of a run with ONE list of
+\* environments, so the lists of all families are prefixes of this one), plus one in which only the third arm runs
+EnvSeq3 == <<
+    [c |-> [C1 |-> TRUE,  C2 |-> FALSE, C3 |-> FALSE], l |-> [L1 |-> 2], s |-> "a"],
+    [c |-> [C1 |-> FALSE, C2 |-> TRUE,  C3 |-> FALSE], l |-> [L1 |-> 1], s |-> "b"],
+    [c |-> [C1 |-> FALSE, C2 |-> FALSE, C3 |-> FALSE], l |-> [L1 |-> 0], s |-> "z"],
+    [c |-> [C1 |-> FALSE, C2 |-> FALSE, C3 |-> TRUE],  l |-> [L1 |-> 1], s |-> "b"] >>
 EnvSeqOne == << [c |-> [C1 |-> TRUE, C2 |-> FALSE], l |-> [L1 |-> 2], s |-> "a"] >>
 =============================================================================
